@@ -5,7 +5,8 @@
 //! face_forward, angle_between — for every spatial type), `v2.rs` (determine_side, triangle areas),
 //! `v3.rs` (cross, slerp), `v4.rs` (homogenisation), `scale.rs` (every scale-invariant / scale-covariant function
 //! with operands scaled exactly by 2^k, tiny and huge), `slerp_edge.rs` (slerp at very small angles, next to pi,
-//! with endpoints of different and extreme lengths, through all four entry points).
+//! with endpoints of different and extreme lengths, through all four entry points), `ints.rs` (every function of the
+//! property that exists for integer element types, up to the limits of the type, against an i128 model).
 //!
 //! Every oracle works on plain arrays in the *oracle domain* `S::O` (`Rat` for `Rat`, `f64` for `f64`/`f32`)
 //! and never calls the vek function it judges. Vectors are built with struct / tuple-struct literals and read
@@ -293,23 +294,30 @@ macro_rules! impl_sp {
     };
 }
 
-impl_sp!(Vec2, 2, struct, (x y), (0 1));
-impl_sp!(Vec3, 3, struct, (x y z), (0 1 2));
-impl_sp!(Vec4, 4, struct, (x y z w), (0 1 2 3));
-impl_sp!(Extent2, 2, struct, (w h), (0 1));
-impl_sp!(Extent3, 3, struct, (w h d), (0 1 2));
-impl_sp!(Vec8, 8, tuple, (m0 m1 m2 m3 m4 m5 m6 m7), (0 1 2 3 4 5 6 7));
-impl_sp!(Vec16, 16, tuple, (m0 m1 m2 m3 m4 m5 m6 m7 m8 m9 m10 m11 m12 m13 m14 m15), (0 1 2 3 4 5 6 7 8 9 10 11 12 13 14 15));
-impl_sp!(Vec32, 32, tuple,
-    (m0 m1 m2 m3 m4 m5 m6 m7 m8 m9 m10 m11 m12 m13 m14 m15 m16 m17 m18 m19 m20 m21 m22 m23 m24 m25 m26 m27 m28 m29 m30 m31),
-    (0 1 2 3 4 5 6 7 8 9 10 11 12 13 14 15 16 17 18 19 20 21 22 23 24 25 26 27 28 29 30 31));
-impl_sp!(Vec64, 64, tuple,
-    (m0 m1 m2 m3 m4 m5 m6 m7 m8 m9 m10 m11 m12 m13 m14 m15 m16 m17 m18 m19 m20 m21 m22 m23 m24 m25 m26 m27 m28 m29 m30 m31
-     m32 m33 m34 m35 m36 m37 m38 m39 m40 m41 m42 m43 m44 m45 m46 m47 m48 m49 m50 m51 m52 m53 m54 m55 m56 m57 m58 m59 m60 m61 m62 m63),
-    (0 1 2 3 4 5 6 7 8 9 10 11 12 13 14 15 16 17 18 19 20 21 22 23 24 25 26 27 28 29 30 31
-     32 33 34 35 36 37 38 39 40 41 42 43 44 45 46 47 48 49 50 51 52 53 54 55 56 57 58 59 60 61 62 63));
+/// Invokes `$m!(Type, lanes, struct|tuple, (field names), (tuple indices));` for every spatial vector type.
+macro_rules! spatial_types {
+    ($m:ident) => {
+        $m!(Vec2, 2, struct, (x y), (0 1));
+        $m!(Vec3, 3, struct, (x y z), (0 1 2));
+        $m!(Vec4, 4, struct, (x y z w), (0 1 2 3));
+        $m!(Extent2, 2, struct, (w h), (0 1));
+        $m!(Extent3, 3, struct, (w h d), (0 1 2));
+        $m!(Vec8, 8, tuple, (m0 m1 m2 m3 m4 m5 m6 m7), (0 1 2 3 4 5 6 7));
+        $m!(Vec16, 16, tuple, (m0 m1 m2 m3 m4 m5 m6 m7 m8 m9 m10 m11 m12 m13 m14 m15), (0 1 2 3 4 5 6 7 8 9 10 11 12 13 14 15));
+        $m!(Vec32, 32, tuple,
+            (m0 m1 m2 m3 m4 m5 m6 m7 m8 m9 m10 m11 m12 m13 m14 m15 m16 m17 m18 m19 m20 m21 m22 m23 m24 m25 m26 m27 m28 m29 m30 m31),
+            (0 1 2 3 4 5 6 7 8 9 10 11 12 13 14 15 16 17 18 19 20 21 22 23 24 25 26 27 28 29 30 31));
+        $m!(Vec64, 64, tuple,
+            (m0 m1 m2 m3 m4 m5 m6 m7 m8 m9 m10 m11 m12 m13 m14 m15 m16 m17 m18 m19 m20 m21 m22 m23 m24 m25 m26 m27 m28 m29 m30 m31
+             m32 m33 m34 m35 m36 m37 m38 m39 m40 m41 m42 m43 m44 m45 m46 m47 m48 m49 m50 m51 m52 m53 m54 m55 m56 m57 m58 m59 m60 m61 m62 m63),
+            (0 1 2 3 4 5 6 7 8 9 10 11 12 13 14 15 16 17 18 19 20 21 22 23 24 25 26 27 28 29 30 31
+             32 33 34 35 36 37 38 39 40 41 42 43 44 45 46 47 48 49 50 51 52 53 54 55 56 57 58 59 60 61 62 63));
+    };
+}
+spatial_types!(impl_sp);
 
 mod generic;
+mod ints;
 mod scale;
 mod slerp_edge;
 mod v2;
@@ -324,6 +332,7 @@ pub fn property() -> Property {
     v4::checks(&mut checks);
     scale::checks(&mut checks);
     slerp_edge::checks(&mut checks);
+    ints::checks(&mut checks);
     Property {
         id: "C11",
         rule: "cases are byte tapes generated by proptest (uniform bytes, fixed seed) decoded by constructive generators into labelled classes, plus two exhaustively enumerated integer grids (cross on {-1,0,1}^6, determine_side / areas on {-2..2}^6). \
@@ -332,6 +341,7 @@ angle: when neither operand is axis-aligned; side/area: when the three points ar
 cross: when a x b != 0 and each operand has >= 2 non-zero lanes; slerp: when the factor is not 0 or 1 and |a| != |b|; homogenise: when w is not 0 or 1 and x,y,z are non-zero; \
 scale-* (extreme-magnitude regime, f64 / f32): operands are base vectors of moderate length (1/2 <= |v| <= 2^8 sqrt N; random, L * rational unit vector, anisotropic lanes, exactly / nearly (anti)parallel and perpendicular pairs) multiplied exactly by 2^k with k stratified over 0, mild, middle, extreme and the limits +-48 (f32) / +-480 (f64) (+-120 / +-1000 for homogenisation), alike, one only, opposite or independent per operand; non-trivial when at least one exponent is non-zero and the unscaled non-triviality rule of the function holds; \
 slerp-edge: directions exactly parallel, log-uniform small angle down to TH_DEF/16, ordinary, next to pi, exactly antiparallel; lengths in [0.5, 2] times 2^k (none, +-4, extreme alike, extreme independent); factors 0, 1, 1/2, 2^-4..2^-20 next to 0 / 1, inside and outside [0, 1]; non-trivial when the result is finite and |from|, |to| differ from each other and from 1 by more than 1e-3 relative; \
+int-* (integer element types i8 i16 i32 i64 u8 u16 u32 and Wrapping<i8 i32 i64 u8 u32>, chosen per case by the tape): lanes / coordinates small, at the edges of the type (vkit::regimes::int_edge), around 2^(bits/2), uniform; second operand also within 3 units of the first; triangles with axis-parallel legs p, q whose product is next to an edge of the type, small triangles at the edge of the coordinate range; plus, for the 8-bit types, every pair of leg lengths in four placements (262144 index cases, exhaustive); non-trivial when at least one function was asserted (result and necessary intermediates representable, or Wrapping) and an operand has a lane beyond +-3 (grid: both legs non-zero); \
 distinct = distinct consumed tape prefix per check",
         assumptions: &[
             "rustc and the proptest runner/shrinker are trusted",
@@ -345,6 +355,7 @@ distinct = distinct consumed tape prefix per check",
             "slerp-Vec3-* precondition: endpoints non-zero (0.1 <= |.| <= 10) and neither parallel nor antiparallel (angle in [0.05, pi-0.05]); factor in [-0.5, 1.5]",
             "extreme magnitudes (scale-*): asserted only where every operand alone is still normalisable and every degree-2 quantity of the property is representable: |k| <= 48 (f32) / 480 (f64) on base lengths in [1/2, 2^8 sqrt N], so |v|^2, a_i b_i and (a_i - b_i)^2 stay normal (f32 2^-98..2^120, f64 2^-962..2^990); cross uses half that range per operand (its derived clauses are of degree 3 and 4); homogenisation only forms quotients and is exercised over 2^+-120 / 2^+-1000 with the quotient exponent bounded by 100 / 900. Overflow or complete underflow of |v|^2 itself (|v| > ~2^63 / 2^511 or < ~2^-63 / 2^-511) is NOT asserted: the documented formulas (v / sqrt(v.v)) lose all meaning there in any implementation that squares. Oracles are evaluated at the unscaled magnitude and multiplied by the exact power of two; every tolerance is k * eps * (scaled magnitude) plus 8 subnormal ulps (gradual underflow of one product of two tiny lanes); the scaling itself is exact: every scaled lane is zero or a normal number (debug-asserted in the harness)",
             "extreme magnitudes, what is deliberately left out: reflected with a scaled *normal* (the property states it for the surface normal; only the incident vector is scaled), refracted (stated for unit vectors only; instead eta is drawn from 2^-12..2^4 and the incidence angle from near-normal / grazing Pythagorean triples), Rat (2^k scaling cannot leave its range; the rational code paths are already exact at unit scale), try_normalized between 0 and 1e-3 (Some(unit) or None both accepted, as at unit scale), `false` answers of the approximate predicates at tiny scale (absolute epsilon leg of RelativeEq)",
+            "integer element types (int-*): oracle = the defining formula on i128. Plain integers (the harness is built with overflow checks, so an overflow inside vek is a panic): the exact result is demanded, and a panic reported, whenever the RESULT and the mathematically necessary intermediates are representable in the element type; otherwise vek is not called and the case only labelled. Necessary intermediates: dot / magnitude_squared: every product and the sum in ANY order (sum of the positive and sum of the negative products separately, so no association order is imposed); distance_squared: lane differences, squares, sum; reflected: v.n, 2(v.n), n_i * 2(v.n), the lane results; face_forward: reference.incident, and -v_i only if the vector is flipped; determine_side: the four differences b-a, c-a, the two products, their difference; signed_triangle_area: plus the half; triangle_area: plus |half| (NOT |cross product|: a cross product of exactly T::MIN has a representable half and area); cross: six products, three differences; homogenized: the four quotients (w = 0 never called, MIN / -1 not asserted). A non-divisible half / quotient may be truncated or floored. Wrapping<_>: polynomial functions must equal the model mod 2^n always (ring identity, independent of evaluation order); halves, absolute values and signs are asserted when the true value is representable, otherwise only triangle_area == |signed_triangle_area| >= 0 and face_forward in {v, -v}. Not covered: u64, i128 / u128, isize / usize (products exceed the i128 model / platform dependent); Wrapping of unsigned for triangle_area (absolute value meaningless)",
             "slerp-edge conditioning (documented GLM formula): the computed cosine is within 8 eps of the true one, so (i) end points are hit within 8 eps |from| (factor 0) / 8 eps max(|from|, |to|) (factor 1: one rounding of lerp's `to - from`) at EVERY angle with sin(alpha') != 0, (ii) |result| = lerp(|from|, |to|, t) within (8 |t1 t2| + 4 (|t1| + |t2|) + 2 (|1-t| + |t|) alpha / sin(alpha) + 8) eps |L| + 4 (|1-t| + |t|) eps max(|from|, |to|), where t1, t2 are the exact weights: bounded for small angles, growing like 1/sin^2 only next to pi, (iii) the full reference within 32 eps for angles <= 0.06 and 32 / sin^2 otherwise (asserted while that is <= 2^-6 / eps). The formula is 0/0 exactly when the computed cosine rounds to 1, possible only for theta^2 / 2 <= 8.25 eps (theta <= 1.40e-3 in f32, 6.05e-8 in f64): inside that zone and its mirror image at pi a non-finite result is accepted and nothing is asserted for the case, a finite result must satisfy every clause; outside it a non-finite result is reported. Within sqrt(512 eps) of pi only the end points are asserted (intermediate directions are genuinely ill-conditioned there)",
         ],
         checks,
